@@ -15,7 +15,7 @@ pub fn c01(tier: Tier, seed: u64) -> i32 {
     let acc = run_histories(
         seed,
         per_shard,
-        move |_r| HistCfg { ops: 130, pools: 3, lifecycle_ext: true, w_swap: 38, w_two_hop: 5, w_liq: 30, w_fees: 12, w_lifecycle: 9, w_clock: 2, w_setters: 3, w_trader: 6, seed_growth: true, ..Default::default() },
+        move |_r| HistCfg { ops: 130, pools: 3, lifecycle_ext: true, allow_adaptive: true, w_swap: 38, w_two_hop: 5, w_liq: 30, w_fees: 12, w_lifecycle: 9, w_clock: 2, w_setters: 3, w_trader: 6, seed_growth: true, ..Default::default() },
         move || vec![Box::new(C01::new(drain_every)) as Box<dyn Monitor>],
     );
     rep.acc = acc;
@@ -93,7 +93,7 @@ pub fn c12(tier: Tier, seed: u64) -> i32 {
     let acc = run_histories(
         seed,
         per_shard,
-        move |_r| HistCfg { ops: 130, spl_only: false, allow_transfer_fee: true, seed_growth: true, lifecycle_ext: true, w_swap: 28, w_liq: 46, w_fees: 6, w_lifecycle: 8, w_clock: 6, w_setters: 2, w_reward: 9, ..Default::default() },
+        move |_r| HistCfg { ops: 130, spl_only: false, allow_transfer_fee: true, allow_adaptive: true, seed_growth: true, lifecycle_ext: true, w_swap: 28, w_liq: 46, w_fees: 6, w_lifecycle: 8, w_clock: 6, w_setters: 2, w_reward: 9, ..Default::default() },
         || vec![Box::new(C12::default()) as Box<dyn Monitor>],
     );
     rep.acc = acc;
